@@ -111,6 +111,10 @@ MUTANTS = [
     m("C13-mixed-clocks", "C13", "C13.R1", H, '"failed_time": time.time(),', '"failed_time": time.monotonic(),'),
     m("C01-misc-handler-oserror-only", "C01", "C01.R1", B, "            return results\n\n        except BaseException:\n            self.close()\n            raise", "            return results\n\n        except OSError:\n            self.close()\n            raise"),
     m("C01-silent-close-alias", "C01", "", B, "        except BaseException:\n            self.close()\n            raise\n\n    def __setitem__", "        except BaseException:\n            self.disconnect_all()\n            raise\n\n    def __setitem__", kind="silent"),
+    m("C01-raw-command-drops-end-token", "C01", "C01.R8", B, 'return self._misc_cmd([b"" + command + b"\\r\\n"], command, False, end_tokens)[0]', 'return self._misc_cmd([b"" + command + b"\\r\\n"], command, False)[0]'),
+    m("C01-misc-truncates-end-token", "C01", "C01.R8", B, "            _reader = partial(_readsegment, end_tokens=end_tokens)\n", "            _reader = partial(_readsegment, end_tokens=end_tokens[:-2])\n"),
+    m("C19-raw-command-drops-end-token", "C19", "C19.R7", B, 'return self._misc_cmd([b"" + command + b"\\r\\n"], command, False, end_tokens)[0]', 'return self._misc_cmd([b"" + command + b"\\r\\n"], command, False)[0]'),
+    m("C01-silent-misc-reader-positional", "C01", "", B, "            _reader = partial(_readsegment, end_tokens=end_tokens)\n", "            _reader = lambda sock, buf: _readsegment(sock, buf, end_tokens)\n", kind="silent"),
     # ---------------- C02
     m("C02-incr-unchecked", "C02", "C02.R1", B, 'val = self._check_integer(value, "value")\n        cmd = b"incr "', 'val = str(value).encode(self.encoding)\n        cmd = b"incr "'),
     m("C02-check-after-connect", "C02", "C02.R2", B, "        expire_bytes = self._check_integer(expire, \"expire\")\n\n        for key, data in values.items():", "        if self.sock is None:\n            self._connect()\n        expire_bytes = self._check_integer(expire, \"expire\")\n\n        for key, data in values.items():"),
